@@ -3,6 +3,12 @@
 
 package encoder
 
+import (
+	"unsafe"
+
+	"github.com/goccy/go-json/internal/verifhook"
+)
+
 func CompileToGetCodeSet(ctx *RuntimeContext, typeptr uintptr) (*OpcodeSet, error) {
 	initEncoder()
 	if typeptr > typeAddr.MaxTypeAddr || typeptr < typeAddr.BaseTypeAddr {
@@ -10,10 +16,13 @@ func CompileToGetCodeSet(ctx *RuntimeContext, typeptr uintptr) (*OpcodeSet, erro
 		if err != nil {
 			return nil, err
 		}
+		verifhook.EncBind(typeptr, unsafe.Pointer(codeSet.Type))
 		return getFilteredCodeSetIfNeeded(ctx, codeSet)
 	}
 	index := (typeptr - typeAddr.BaseTypeAddr) >> typeAddr.AddrShift
+	verifhook.Point(1, unsafe.Pointer(&cachedOpcodeSets[index]), false)
 	if codeSet := cachedOpcodeSets[index]; codeSet != nil {
+		verifhook.EncBind(typeptr, unsafe.Pointer(codeSet.Type))
 		filtered, err := getFilteredCodeSetIfNeeded(ctx, codeSet)
 		if err != nil {
 			return nil, err
@@ -28,6 +37,8 @@ func CompileToGetCodeSet(ctx *RuntimeContext, typeptr uintptr) (*OpcodeSet, erro
 	if err != nil {
 		return nil, err
 	}
+	verifhook.EncBind(typeptr, unsafe.Pointer(codeSet.Type))
+	verifhook.Point(2, unsafe.Pointer(&cachedOpcodeSets[index]), true)
 	cachedOpcodeSets[index] = codeSet
 	return filtered, nil
 }
